@@ -61,7 +61,7 @@ def setup():
 
 
 # ------------------------------------------------------------------ scenario generator
-CV_KINDS = ["distanceZ", "distance", "dihedral", "distanceVec", "gyration", "angle", "combo"]
+CV_KINDS = ["distanceZ", "distance", "dihedral", "distanceVec", "gyration", "angle", "combo", "fitdist", "rmsd"]
 
 
 def gen_colvar(r, name, ext_ok=True):
@@ -102,7 +102,19 @@ def gen_colvar(r, name, ext_ok=True):
         if k == "gyration":
             ids = r.sample(range(1, NATOMS + 1), 3)
             return ["  gyration {", "    atoms { atomNumbers %d %d %d }" % tuple(ids), "  }"]
-    if kind == "combo":
+    if kind == "fitdist":
+        # an atom group with a separate fitting group (atoms held by the group AND by its fitting group, shared with other
+        # variables): centerToReference moves the frame, the fitting group's atoms are requested from the engine too
+        ids = r.sample(range(1, NATOMS + 1), 3)
+        L += ["  distance {", "    group1 {", "      atomNumbers %d %d" % (a(), a()), "      centerToReference on",
+              "      fittingGroup {", "        atomNumbers %d %d %d" % tuple(ids), "      }",
+              "      refPositions (0.0, 0.0, 0.0) (1.0, 0.0, 0.0) (0.0, 1.0, 0.5)", "    }",
+              "    group2 { atomNumbers %d }" % a(), "  }"]
+    elif kind == "rmsd":
+        ids = r.sample(range(1, NATOMS + 1), 3)
+        L += ["  rmsd {", "    atoms { atomNumbers %d %d %d }" % tuple(ids),
+              "    refPositions (0.0, 0.0, 0.0) (1.0, 0.0, 0.0) (0.0, 1.0, 0.5)", "  }"]
+    elif kind == "combo":
         L += comp("distanceZ") + comp("distance")
     else:
         L += comp(kind)
@@ -203,6 +215,67 @@ def gen_sequence(r, k, length, with_set=True):
     # identity stream: no extended-Lagrangian variables and engine total forces that do not contain the Colvars
     # forces, so that a deleted bias cannot legitimately have changed the state of a survivor while it existed
     return {"id": k, "samestep": samestep, "events": ev, "includecv": 1 if with_set else 0}
+
+
+# ------------------------------------------------------------------ exhaustive enumeration (thorough tier)
+ENUM_ALPHABET = ["A", "B", "H", "G", "DB", "DV", "R", "S"]
+
+
+def enum_sequences(maxlen):
+    """ALL sequences up to length maxlen over {A: add variable (distance 1-2, outputTotalForce), B: add variable (distance with
+    a fitting group, shares atom 2), H: add harmonic (timeStepFactor 2) on the first live variable, G: add harmonic on every
+    live variable (at most 2), DB: delete the last live bias, DV: delete the first live variable, R: reset, S: step};
+    a sequence whose operation has nothing to act on is dropped (it is not a history); a final step is appended"""
+    import itertools
+    k = 0
+    for n in range(1, maxlen + 1):
+        for word in itertools.product(ENUM_ALPHABET, repeat=n):
+            ev, cvs, biases = [], [], []
+            ncv = nb = nstep = 0
+            ok = True
+            for w in word:
+                if w in ("A", "B"):
+                    name = "e%s%d" % (w.lower(), ncv); ncv += 1
+                    if w == "A":
+                        conf = ("colvar {\n  name %s\n  outputTotalForce on\n  distance {\n    group1 { atomNumbers 1 }\n    group2 { atomNumbers 2 }\n  }\n}\n" % name)
+                    else:
+                        conf = ("colvar {\n  name %s\n  distance {\n    group1 {\n      atomNumbers 3 4\n      centerToReference on\n      fittingGroup {\n"
+                                "        atomNumbers 2 5 6\n      }\n      refPositions (0.0, 0.0, 0.0) (1.0, 0.0, 0.0) (0.0, 1.0, 0.5)\n    }\n"
+                                "    group2 { atomNumbers 2 }\n  }\n}\n" % name)
+                    c = {"name": name, "kind": "distance", "scalar": True, "opts": {}, "conf": conf}
+                    cvs.append(c); ev.append({"op": "addcv", "cv": c})
+                elif w in ("H", "G"):
+                    if not cvs:
+                        ok = False; break
+                    sel = cvs[:1] if w == "H" else cvs[:2]
+                    name = "e%s%d" % (w.lower(), nb); nb += 1
+                    conf = "harmonic {\n  name %s\n  colvars %s\n  centers %s\n  forceConstant 2.0\n%s}\n" % (
+                        name, " ".join(c["name"] for c in sel), " ".join(["0.5"] * len(sel)), "  timeStepFactor 2\n" if w == "H" else "")
+                    b = {"name": name, "kind": "harmonic", "cvs": [c["name"] for c in sel], "conf": conf}
+                    biases.append(b); ev.append({"op": "addbias", "bias": b})
+                elif w == "DB":
+                    if not biases:
+                        ok = False; break
+                    b = biases.pop(); ev.append({"op": "delbias", "name": b["name"]})
+                elif w == "DV":
+                    if not cvs:
+                        ok = False; break
+                    c = cvs.pop(0)
+                    gone = [b for b in biases if c["name"] in b["cvs"]]
+                    biases = [b for b in biases if c["name"] not in b["cvs"]]
+                    ev.append({"op": "delcv", "name": c["name"], "also": [b["name"] for b in gone]})
+                elif w == "R":
+                    if not cvs and not biases:
+                        ok = False; break
+                    cvs, biases = [], []; ev.append({"op": "reset"})
+                elif w == "S":
+                    nstep += 1
+                    ev.append({"op": "step", "pos": [(a, 0.5 * a + 0.25 * nstep, 0.25 * ((a * 7 + nstep) % 5) - 0.5, 0.125 * ((a * 3) % 7) + 0.25 * nstep) for a in range(1, NATOMS + 1)]})
+            if not ok:
+                continue
+            ev.append({"op": "step", "pos": [(a, 0.5 * a - 0.125, 0.25 * ((a * 7) % 5) - 0.25, 0.125 * ((a * 3) % 7) + 1.0) for a in range(1, NATOMS + 1)]})
+            yield {"id": "enum-%d" % k, "word": " ".join(word), "samestep": 1, "events": ev, "includecv": 0, "enum": True}
+            k += 1
 
 
 def start_lines(seq):
@@ -502,6 +575,14 @@ W_F5 = ("natoms 2\nnew\nconfig EOF\n" + XZ + "EOF\nscriptset colvar x 28 1\npos 
 W_F5_REF = ("natoms 2\nnew\nconfig EOF\n" + XZ + "EOF\npos 1 0 0 1.0\nstep\npos 1 0 0 2.0\nstep\npos 1 0 0 3.0\nstep\necho END\n")
 
 
+# F7 (repair on fix-C13-2: "fix: scaledBiasingForce switched on by script dereferenced a null map of scaling factors"): like F5,
+# a capability switched on at run time whose data is only created by the configuration keyword
+F7 = "script-set-scaled-biasing-force-null-map"
+XZG = XZ.replace("  distanceZ {", "  lowerBoundary -4.0\n  upperBoundary 4.0\n  width 0.5\n  distanceZ {")
+W_F7 = ("natoms 2\nnew\nconfig EOF\n" + XZG + HARM % ("h", "") + "EOF\nscriptset bias h 14 1\npos 1 0 0 1.0\nstep\npos 1 0 0 2.0\nstep\necho END\n")
+W_F7_REF = ("natoms 2\nnew\nconfig EOF\n" + XZG + HARM % ("h", "") + "EOF\npos 1 0 0 1.0\nstep\npos 1 0 0 2.0\nstep\necho END\n")
+
+
 def run_scn(unit, d, text, name="w.scn"):
     p = os.path.join(d, name)
     open(p, "w").write(text)
@@ -547,6 +628,19 @@ def replay_witnesses(run, unit, d, tabs, model):
         if "err=ok" not in (A or [""])[0] or not obs_equal(A, B):
             run.violation(F5 + ":observables", "switching the running average of x on by script changes the step results: %s instead of %s" % (A, B),
                           {"kind": "identity", "scenario": W_F5, "reference": W_F5_REF})
+    # F7: switching scaledBiasingForce on by script (no map of scaling factors exists): must not crash, force unscaled
+    rc, o, e = run_scn(unit, d, W_F7)
+    rc2, o2, e2 = run_scn(unit, d, W_F7_REF)
+    run.count("witness:F7", True)
+    if "echo END" not in o:
+        run.violation(F7, "`cv bias h set \"scale_biasing_force\" 1` followed by a step kills the process (rc=%d%s) in colvarbias::communicate_forces: "
+                      "biasing_force_scaling_factors is NULL unless scaledBiasingForce was read from the configuration" % (
+                          rc, ", SIGSEGV" if rc in (-11, 139) else ""), {"kind": "scenario", "scenario": W_F7})
+    else:
+        A, B = last_step_block(o), last_step_block(o2)
+        if "err=ok" not in (A or [""])[0] or not obs_equal(A, B):
+            run.violation(F7 + ":observables", "switching scaledBiasingForce on by script (no map) changes the step results: %s instead of %s" % (A, B),
+                          {"kind": "identity", "scenario": W_F7, "reference": W_F7_REF})
     # F3: script "set <feature> off" of a feature with exactly one dependent
     rc, o, e = run_scn(unit, d, W_F3)
     dumps = D.parse_deps_blocks(o.split("\n"))
@@ -648,6 +742,9 @@ def check(run):
 
     nseq = 30 if quick else 600
     seqs = [gen_sequence(r, k, r.randint(6, 40 if k % 3 else 14)) for k in range(nseq)]
+    enum_seqs = [] if quick else list(enum_sequences(4))
+    seqs += enum_seqs
+    enum_out = {}
     mlines, mexpect = [], []
     nprim = ndel = 0
     for seq in seqs:
@@ -661,7 +758,9 @@ def check(run):
             run.violation("history:crash", "the engine simulator died (rc=%d) during a define/delete history: %s" % (rc, (o[-300:] + e[-300:])),
                           {"kind": "scenario", "scenario": sc})
             continue
-        run.dist("histories")
+        run.dist("histories:enumerated" if seq.get("enum") else "histories")
+        if seq.get("enum"):
+            enum_out[seq["id"]] = o
         final = None
         prev = {"objs": [], "atoms": {}}
         prev_bad = set()
@@ -683,7 +782,7 @@ def check(run):
                 ndel += 1
             if D.encodable(cur):
                 mlines.append("CHK %d 40 ST %s" % (lag, D.encode_state(cur)))
-                mexpect.append(("chk", "1" if D.consistent_py(tabs, cur) else "0", cur, part, None, None))
+                mexpect.append(("chk", "%d %d" % (1 if D.consistent_py(tabs, cur) else 0, 0 if any(c == "I2" for c, _ in D.monitor(tabs, cur)) else 1), cur, part, None, None))
                 lk = D.monitor_links(cur)
                 mlines.append("MOP %d %d check %s" % (lag, FUEL, D.encode_mstate(cur, NATOMS)))
                 mexpect.append(("chk", "%d %d" % (0 if any(c != "A1" for c, _ in lk) else 1, 0 if any(c == "A1" for c, _ in lk) else 1), cur, part, None, None))
@@ -706,7 +805,7 @@ def check(run):
                 run.violation(sig, "after event %d (%s) of a define/delete history: %s" % (i, ev["op"], text),
                               {"kind": "scenario", "scenario": scenario(part), "monitor": text})
             prev = cur
-        if final is None:
+        if final is None or seq.get("enum"):
             continue
         # (2) primitive-step correspondence from the reached state
         ops = gen_depsops(r, final, tabs, r.randint(12, 25))
@@ -799,14 +898,20 @@ def check(run):
     # ---- (3) define/delete identity on the implementation: survivors-only re-run
     r2 = V.rng("C13-identity")
     nid = 40 if quick else 800
+    id_items = []
     for k in range(nid):
         seq = gen_sequence(r2, k, r2.randint(5, 24), with_set=False)
         # the compared step comes after every deletion
         seq["events"].append({"op": "step", "pos": [(a, V.dyadic(r2, -3, 3, 4), V.dyadic(r2, -3, 3, 4), V.dyadic(r2, -3, 3, 4)) for a in range(1, NATOMS + 1)]})
+        id_items.append((seq, None))
+    # every enumerated history that deletes something (its run with dumps was made above)
+    id_items += [(es, enum_out[es["id"]]) for es in enum_seqs
+                 if es["id"] in enum_out and any(e["op"] in ("delbias", "delcv", "reset") for e in es["events"])]
+    for k, (seq, o1pre) in enumerate(id_items):
         tabs = tabs_same if seq["samestep"] else tabs_lagged
         ref, lcv, lb = survivors_only(seq)
         sc1, sc2 = scenario(seq, dumps=True), scenario(ref, dumps=False)
-        rc1, o1, e1 = run_scn(unit, d, sc1, "i.scn")
+        rc1, o1, e1 = run_scn(unit, d, sc1, "i.scn") if o1pre is None else (0, o1pre, "")
         rc2, o2, e2 = run_scn(unit, d, sc2, "j.scn")
         if "echo END" not in o1 or "echo END" not in o2:
             run.violation("identity:crash", "the engine simulator died during a define/delete history (rc=%d/%d)" % (rc1, rc2),
@@ -836,12 +941,12 @@ def check(run):
             continue
         ndeleted = sum(1 for ev in seq["events"] if ev["op"] in ("delbias", "delcv", "reset"))
         run.count("identity:%d" % k, ndeleted > 0 and bool(lcv))
-        run.dist("identity:histories")
+        run.dist("identity:histories:enumerated" if seq.get("enum") else "identity:histories")
         run.dist("identity:deletions", ndeleted)
         compare_identity(run, seq, ref, f1[-1], f2[-1], o1, o2, tabs, f1_hit, f2_hit)
     if not quick:
         asan_stream(run, 300)
-    run.cov["correspondence"].update({"histories": len(seqs), "primitive_cases": nprim, "module_event_cases": ndel, "identity_histories": nid})
+    run.cov["correspondence"].update({"histories": len(seqs), "primitive_cases": nprim, "module_event_cases": ndel, "identity_histories": len(id_items), "enumerated_histories": len(enum_seqs)})
 
 
 def asan_stream(run, n):
@@ -915,10 +1020,10 @@ def compare_identity(run, seq, ref, s1, s2, o1, o2, tabs, f1_hit, f2_hit=()):
     if A is not None and B is not None and not obs_equal(A, B):
         diffA = [l for l in A if l not in B][:4]
         diffB = [l for l in B if l not in A][:4]
-        if f1_hit:
+        if deact or f2_hit:
+            sig = F2          # the dumps show a surviving variable switched off by a deletion
+        elif f1_hit:
             sig = F1
-        elif deact or f2_hit:
-            sig = F2
         else:
             sig = "identity:observables"
         run.violation(sig, "values/energies/forces at the last step differ from the run in which the deleted objects never existed: %s instead of %s%s" % (
